@@ -274,7 +274,7 @@ Proof.
           { destruct (Nat.eq_dec k e0); [subst; lia | lia]. }
           replace (Nat.pow 2 k + (Nat.pow 2 k + 0))%nat with (Nat.pow 2 (S k)) by (simpl; lia).
           apply IHfuel; lia. }
-    change 1%nat with (Nat.pow 2 0). apply G; [|lia].
+    apply (G (Nat.pow 2 e) e O); [|lia].
     pose proof (Nat.pow_gt_lin_r 2 e ltac:(lia)). lia. }
-  rewrite Nat.sub_diag. simpl. apply app_nil_r.
+  rewrite Nat.sub_diag. cbn [repeat]. apply app_nil_r.
 Qed.
